@@ -3,8 +3,10 @@ CONSTANTS
   MaxNodes = 12
   BaseSet <- AllBases
   RunCfgSeq <- RunsTrust
-  Prods <- AllProds
-  KISet <- KINamed
+  Prods <- TreeProds
+  KISet <- KIAll
+  EnvWhereSet <- EnvWheres
+  Deviations = {}
   EmitMin = 0
   EmitFrom = 9
   EmitMod = 1
